@@ -15,6 +15,7 @@ import select
 import signal
 import subprocess
 import sys
+import tempfile
 import time
 import traceback
 
@@ -250,6 +251,12 @@ def pool_map(job_fn, jobs: list, workers: int | None = None, wall_cap: float | N
     pids = {}
     sys.stdout.flush()
     sys.stderr.flush()
+    # regression tooling only (tools/try_all_seeded.sh): stop the batch once some run has reported a violation
+    stop_flag = None
+    if os.environ.get("VERIF_STOP_AFTER_FIRST"):
+        fd, stop_flag = tempfile.mkstemp(prefix="vstop_")
+        os.close(fd)
+        os.unlink(stop_flag)
     for wi in range(W):
         r, w = os.pipe()
         pid = os.fork()
@@ -261,6 +268,8 @@ def pool_map(job_fn, jobs: list, workers: int | None = None, wall_cap: float | N
                 for ji in range(wi, len(jobs), W):
                     if deadline is not None and time.monotonic() > deadline:
                         break
+                    if stop_flag and os.path.exists(stop_flag):
+                        break
                     try:
                         res = job_fn(jobs[ji])
                     except HarnessError as e:
@@ -269,6 +278,8 @@ def pool_map(job_fn, jobs: list, workers: int | None = None, wall_cap: float | N
                         res = {"harness_error": traceback.format_exc()}
                     data = pickle.dumps((ji, res), protocol=pickle.HIGHEST_PROTOCOL)
                     _write_all(w, len(data).to_bytes(8, "big") + data)
+                    if stop_flag and isinstance(res, dict) and res.get("violations"):
+                        open(stop_flag, "w").close()
             finally:
                 os._exit(0)
         os.close(w)
@@ -297,6 +308,8 @@ def pool_map(job_fn, jobs: list, workers: int | None = None, wall_cap: float | N
                 if progress:
                     progress(ji, res)
     truncated = len(results) < len(jobs)
+    if stop_flag and os.path.exists(stop_flag):
+        os.unlink(stop_flag)
     return results, truncated
 
 
